@@ -7,6 +7,7 @@ pub mod c02;
 pub mod c03;
 pub mod c04;
 pub mod c05;
+pub mod c06;
 pub mod c07;
 pub mod c11;
 pub mod c12;
@@ -17,7 +18,7 @@ pub mod c19;
 pub mod c20;
 pub mod gprog;
 
-pub const ALL: &[&str] = &["C01", "C02", "C03", "C04", "C05", "C07", "C11", "C12", "C14", "C15", "C16", "C19", "C20"];
+pub const ALL: &[&str] = &["C01", "C02", "C03", "C04", "C05", "C06", "C07", "C11", "C12", "C14", "C15", "C16", "C19", "C20"];
 
 pub fn intern(id: &str) -> Option<&'static str> {
     ALL.iter().copied().find(|p| *p == id)
@@ -37,6 +38,7 @@ pub fn meta(prop: &str) -> Option<Meta> {
         "C03" => Some(c03::meta()),
         "C04" => Some(c04::meta()),
         "C05" => Some(c05::meta()),
+        "C06" => Some(c06::meta()),
         "C07" => Some(c07::meta()),
         "C11" => Some(c11::meta()),
         "C12" => Some(c12::meta()),
@@ -56,6 +58,7 @@ pub fn spaces(prop: &str, tier: Tier, seed: u64) -> Vec<Box<dyn Space>> {
         "C03" => c03::spaces(tier, seed),
         "C04" => c04::spaces(tier, seed),
         "C05" => c05::spaces(tier, seed),
+        "C06" => c06::spaces(tier, seed),
         "C07" => c07::spaces(tier, seed),
         "C11" => c11::spaces(tier, seed),
         "C12" => c12::spaces(tier, seed),
